@@ -467,7 +467,23 @@ func ruleC10Close(c *Ctx) {
 				c.violate("C10.close", key+":sender@"+fnName(s.Parent()), s.Pos(), fnName(s.Parent()), "the result channel is written outside the stage that closes it: send on closed channel / results after end-of-stream")
 			}
 		}
+		// an explicit close that lies on every path from the stage's entry to each
+		// of its returns is as good as the deferred one
+		onEveryExit := false
+		if !isDefer {
+			ec := c.newEventCounter(func(in ssa.Instruction) int {
+				if in == ssa.Instruction(cl) {
+					return 1
+				}
+				return 0
+			}, false)
+			if r := ec.function(producer); r.Min == 1 && r.Max == 1 {
+				onEveryExit = true
+			}
+		}
 		switch {
+		case onEveryExit && sends:
+			c.hold("C10.close", key, cl.Pos(), "closed exactly once on every path to a return of its only producer "+fnName(producer))
 		case !isDefer:
 			c.violate("C10.close", key+":deferred", cl.Pos(), fnName(producer), "the result channel is closed by a plain call, not a defer: an error return of the stage leaves the consumer blocked")
 		case df.Block() != producer.Blocks[0] || firstRealInstr(producer) != ssa.Instruction(df):
